@@ -146,7 +146,7 @@ type scenario struct {
 }
 
 func drawDelay(rt *rapid.T, T time.Duration, label string) time.Duration {
-	pal := []time.Duration{0, 0, 0, 0, time.Millisecond, time.Millisecond, 100 * time.Millisecond, time.Second, T - time.Millisecond, T, T + time.Millisecond}
+	pal := []time.Duration{0, 0, 0, 0, 0, 0, time.Millisecond, time.Millisecond, time.Millisecond, 100 * time.Millisecond, 100 * time.Millisecond, time.Second, time.Second, T - time.Millisecond, T, T + time.Millisecond}
 	return pal[rapid.IntRange(0, len(pal)-1).Draw(rt, label)]
 }
 
@@ -154,13 +154,13 @@ func drawDelivery(rt *rapid.T, w *world, T time.Duration, src int, push bool, la
 	d := &delivery{push: push, msg: w.drawMsg(rt, src, label)}
 	d.preDelay = drawDelay(rt, T, label+"-pre")
 	if !push {
-		d.nego = []int{negoOK, negoOK, negoOK, negoOK, negoOK, negoOK, negoOK, negoNA, negoGarbage, negoNone, negoWrongEcho}[rapid.IntRange(0, 10).Draw(rt, label+"-nego")]
+		d.nego = []int{negoOK, negoOK, negoOK, negoOK, negoOK, negoOK, negoOK, negoOK, negoOK, negoOK, negoOK, negoOK, negoOK, negoOK, negoOK, negoOK, negoNA, negoGarbage, negoNone, negoWrongEcho}[rapid.IntRange(0, 19).Draw(rt, label+"-nego")]
 	}
 	d.pieces = []int{1, 1, 1, 2, 3, 5}[rapid.IntRange(0, 5).Draw(rt, label+"-pieces")]
 	if d.pieces > 1 {
 		d.gap = []time.Duration{0, 0, time.Millisecond, T / 4, T / 2}[rapid.IntRange(0, 4).Draw(rt, label+"-gap")]
 	}
-	d.end = []int{endCloseWrite, endCloseWrite, endCloseWrite, endCloseWrite, endCloseWrite, endCloseWrite, endClose, endStall, endReset}[rapid.IntRange(0, 8).Draw(rt, label+"-end")]
+	d.end = []int{endCloseWrite, endCloseWrite, endCloseWrite, endCloseWrite, endCloseWrite, endCloseWrite, endCloseWrite, endCloseWrite, endCloseWrite, endClose, endClose, endStall, endReset}[rapid.IntRange(0, 12).Draw(rt, label+"-end")]
 	return d
 }
 
@@ -177,7 +177,7 @@ func drawScenario(rt *rapid.T) *scenario {
 	}
 	sc.longSleep = []time.Duration{16 * time.Minute, time.Hour, 48 * time.Hour}[rapid.IntRange(0, 2).Draw(rt, "longSleep")]
 	T := sc.timeout
-	n := rapid.IntRange(1, 9).Draw(rt, "nsteps")
+	n := rapid.IntRange(1, 10).Draw(rt, "nsteps")
 	status := []int{} // 1 open, 2 closed
 	pushes := map[int]int{}
 	src := 0
@@ -191,7 +191,10 @@ func drawScenario(rt *rapid.T) *scenario {
 		}
 		var choices []stepKind
 		if len(status) < maxConns {
-			choices = append(choices, stOpen, stOpen, stOpen)
+			choices = append(choices, stOpen)
+			if len(open) == 0 {
+				choices = append(choices, stOpen, stOpen)
+			}
 		}
 		if i > 0 {
 			if len(open) > 0 {
@@ -215,7 +218,7 @@ func drawScenario(rt *rapid.T) *scenario {
 			st.remoteClass = []int{rcPublic, rcPublic, rcPrivate, rcPrivate, rcUnroutable}[rapid.IntRange(0, 4).Draw(rt, label+"-remoteClass")]
 			st.limited = rapid.IntRange(0, 5).Draw(rt, label+"-limited") == 0
 			st.lateConnected = rapid.IntRange(0, 7).Draw(rt, label+"-lateConnected") == 0
-			st.newStream = []int{nsOK, nsOK, nsOK, nsOK, nsOK, nsOK, nsOK, nsError, nsBlock, nsDelay}[rapid.IntRange(0, 9).Draw(rt, label+"-newStream")]
+			st.newStream = []int{nsOK, nsOK, nsOK, nsOK, nsOK, nsOK, nsOK, nsOK, nsOK, nsOK, nsOK, nsOK, nsError, nsBlock, nsDelay, nsDelay}[rapid.IntRange(0, 15).Draw(rt, label+"-newStream")]
 			if st.newStream == nsDelay {
 				st.nsDelay = []time.Duration{time.Millisecond, T / 2, T - time.Millisecond}[rapid.IntRange(0, 2).Draw(rt, label+"-nsDelay")]
 			}
